@@ -20,6 +20,17 @@
 // ip_set.LoadFromFiles, the ip_set constructor (ips + files + sets) and the
 // client_ip / resp_ip matcher constructors. A load is either refused with an
 // error or must agree with the harness' own reference parser of the format.
+//
+// Phase "sizes" (sizes.go): sets of every size class (1 .. 70000 rules; single
+// addresses only, prefixes only, mixed, duplicates, nested, runs; IPv4 / IPv6 /
+// mixed / mapped spelling) through every load path, including the ip_set
+// plugin built from YAML args by the real args decoder and the anonymous sets
+// of client_ip / resp_ip / ptr_ip.
+//
+// Phase "rules" (rules.go): one rule whose TEXT is at an edge value (address
+// form x length form: lengths -1, 0, 32, 33, 128, 129, 2^32+24, '+8', '08', ...)
+// among ordinary rules, through the same load paths: refused, or exactly one
+// acceptable reading of the text - never more.
 package main
 
 import (
@@ -61,6 +72,10 @@ func (j job) make(seed int64, maxN int) (*Case, error) {
 		return genTopo(seed, j.idx)
 	case "lines":
 		return genLines(seed, j.idx)
+	case "sizes":
+		return genSizes(seed, j.idx, j.a, sizeComps[j.b], sizeFams[j.c])
+	case "rules":
+		return genRules(seed, j.idx, j.a, j.b)
 	}
 	return nil, fmt.Errorf("unknown phase %q", j.phase)
 }
@@ -163,11 +178,13 @@ type workerState struct {
 
 func main() {
 	rep = evid.New("C13", "exploration")
-	rep.SetRule("cases = multisets of IPv4/IPv6 prefixes and bare addresses (random sets grown by duplicate / same-base / child / parent / sibling / touching-block operators; every ordered pair of lengths 0..32 and 0..128 in 4 geometric relations; all 32767 subsets of a complete 3-level prefix subtree at 8 places incl. both ends of the address space and of the mapped range; random DAGs of 3..9 cooperating ip_set plugins with shared referenced sets, each set probed after its own and after all constructions against its own + transitively referenced prefixes), each loaded in 3 orders through Append, LoadFromText, LoadFromReader and ip_set, probed at first/last/neighbour addresses of every prefix + extremes + random, in v6 and v4 form; plus text sources of 0..7 entries whose physical lines have lengths just below / at / just above / between 4096, 8192, 12288, 16384, 32768, 65536, 131072 bytes (entry + long comment, long comment, long blank line, blanks + entry also straddling a boundary, entry + blanks + trailing text; LF / CRLF / no final newline; address-like bait inside the comments at line- and file-relative multiples of 512..32768, in aligned cells, behind blanks, at random offsets, flush with the line end), loaded in 2 line orders through LoadFromReader (whole, 1-byte, half, chunked, data-with-EOF and failing readers), LoadFromFiles, the ip_set constructor with lines dealt to ips / 1..3 files / a referenced set, and client_ip / resp_ip quick setup, probed additionally at first/last/neighbours of every bait; every load must be refused with an error or agree with the reference parser (a lines case is non-trivial if it has a line >= 4094 bytes, at least one load was accepted and the reference answers both true and false). A case of the other phases is non-trivial if it has >= 2 prefixes of which at least two are duplicates, share a base, are nested or touch, and the oracle answers both true and false for its probes; distinct = distinct multisets of (masked base, length)")
+	rep.SetRule("cases = multisets of IPv4/IPv6 prefixes and bare addresses (random sets grown by duplicate / same-base / child / parent / sibling / touching-block operators; every ordered pair of lengths 0..32 and 0..128 in 4 geometric relations; all 32767 subsets of a complete 3-level prefix subtree at 8 places incl. both ends of the address space and of the mapped range; random DAGs of 3..9 cooperating ip_set plugins with shared referenced sets, each set probed after its own and after all constructions against its own + transitively referenced prefixes), each loaded in 3 orders through Append, LoadFromText, LoadFromReader and ip_set, probed at first/last/neighbour addresses of every prefix + extremes + random, in v6 and v4 form; plus text sources of 0..7 entries whose physical lines have lengths just below / at / just above / between 4096, 8192, 12288, 16384, 32768, 65536, 131072 bytes (entry + long comment, long comment, long blank line, blanks + entry also straddling a boundary, entry + blanks + trailing text; LF / CRLF / no final newline; address-like bait inside the comments at line- and file-relative multiples of 512..32768, in aligned cells, behind blanks, at random offsets, flush with the line end), loaded in 2 line orders through LoadFromReader (whole, 1-byte, half, chunked, data-with-EOF and failing readers), LoadFromFiles, the ip_set constructor with lines dealt to ips / 1..3 files / a referenced set, and client_ip / resp_ip quick setup, probed additionally at first/last/neighbours of every bait; every load must be refused with an error or agree with the reference parser (a lines case is non-trivial if it has a line >= 4094 bytes, at least one load was accepted and the reference answers both true and false). A case of the other phases is non-trivial if it has >= 2 prefixes of which at least two are duplicates, share a base, are nested or touch, and the oracle answers both true and false for its probes; distinct = distinct multisets of (masked base, length). Phase sizes: sets of n rules for n = 1, 2, 3, every power of two up to 4096 (thorough 16384) with both neighbours, 100, 1000, 5000 and a few sets of 10000..70000 (thorough ..200000) rules, composed of single addresses only / prefixes only / both / single addresses + one prefix / prefixes + one address / n distinct addresses + duplicates / copies of 1..4 rules / rules nested in 1..4 parents / n consecutive addresses, in IPv4, IPv6, mixed and IPv4-mapped spelling, each loaded through List.Append, LoadFromReader, ip_set.LoadFromIPs, the ip_set plugin built from YAML args through the real args decoder (ips / files / ips+files / sets-only over ips / sets-only over files) and the anonymous sets of client_ip, resp_ip and ptr_ip (inline / &file / $set), probed at first/last/neighbours of a sample of the rules incl. the lowest and highest (a sizes case is non-trivial if all paths agreed with the oracle, which answered both true and false; distinct = (n, composition, family, generator seed)). Phase rules: 0..3 ordinary rules + one rule whose text is <address form> x <length form> (36 address forms incl. mapped, zone, brackets, zero-padded / hex / out-of-range octets, blanks, malformed; 130 length forms: none, 0..128, beyond 128 up to beyond 2^64 incl. values that wrap to valid lengths, negative, '+', leading zeros, empty, blanks, hex / float / non-ASCII digits, doubled, netmask) through LoadFromText, LoadFromReader, LoadFromIPs, LoadFromFiles, the ip_set plugin from YAML args (ips / files / sets-only) and client_ip / resp_ip / ptr_ip (inline / &file): each load must be refused, or answer every probe as 'ordinary rules + one acceptable reading of the edge rule' (a rules case is non-trivial if at least one load was judged; distinct = (address form, length form, text))")
 	rep.Assume("net/netip parsing and formatting (ParseAddr, ParsePrefix, AddrFrom4/16, As16) are trusted; the oracle itself uses only byte arrays and its own bit compare, cross-checked against math/big at start-up")
 	rep.Assume("zoned addresses and invalid netip.Addr / netip.Prefix values are out of scope and never generated")
 	rep.Assume("text inputs are restricted to forms the loaders document: one address or CIDR per line, '#' comments, text after the first blank ignored, surrounding blanks/tabs/CR; a tab directly before '#' is not generated (the loader rejects such a line with an error, it does not mis-load it)")
 	rep.Assume("lines phase: the list format is read as: lines end at LF; blanks (space, tab, CR, VT, FF) around a line are ignored; everything from the first '#', and from the first space, is comment; the rest is one address or CIDR. A loader may refuse any source with an error (e.g. lines beyond a length limit, a failing reader); only sources it accepts are compared. A lone CR inside a line is never followed by bait")
+	rep.Assume("rules phase: a rule in canonical text form (what net/netip accepts: no sign, no leading zeros, length 0..32 / 0..128, no zone in a prefix) has exactly one reading and must be honoured; for any other text the acceptable outcomes are: refused at load (error, or a panic at load), contributes nothing, or contributes exactly one of its listed natural readings (decimal / octal value of a padded number, the address without zone / brackets / port / blanks, the first blank-separated field alone as the list format has it); a length outside 0..32 / 0..128 has no reading")
+	rep.Assume("sizes phase: sets of more than 140 rules are probed at a sample of 140 rules (always including the lowest and the highest one)")
 	rep.Assume("universals are sampled: a clean run means 'held on the generated sets and probes', not 'verified'")
 
 	if err := selfTest(rep.Seed); err != nil {
@@ -271,6 +288,47 @@ func main() {
 		add(job{phase: "lines"})
 	}
 
+	// sets of every size class x composition x family (sizes.go); the few very
+	// large sets first. Appended after the phases above so that their case indices stay.
+	{
+		small, big := sizeClassList(rep.Thorough())
+		bigCombos := [][2]int{{0, 0}, {2, 2}, {1, 1}, {5, 2}, {0, 2}, {0, 1}, {2, 0}, {3, 0}, {0, 3}}
+		for i, n := range big {
+			k := 1
+			if rep.Thorough() {
+				k = 3
+			}
+			for x := 0; x < k; x++ {
+				cb := bigCombos[(i+x*4+int(rep.Seed))%len(bigCombos)]
+				add(job{phase: "sizes", a: n, b: cb[0], c: cb[1]})
+			}
+		}
+		for rp, reps := 0, rep.Pick(1, 3); rp < reps; rp++ {
+			for i, n := range small {
+				for ci := range sizeComps {
+					if ci < 3 || rep.Thorough() { // singles / prefixes / mixed x v4 / v6 / mixed: full cross
+						for fi := 0; fi < 3; fi++ {
+							add(job{phase: "sizes", a: n, b: ci, c: fi})
+						}
+						if rep.Thorough() || ci == (i+int(rep.Seed))%3 {
+							add(job{phase: "sizes", a: n, b: ci, c: 3})
+						}
+					} else {
+						add(job{phase: "sizes", a: n, b: ci, c: (i + ci + rp + int(rep.Seed)) % len(sizeFams)})
+					}
+				}
+			}
+		}
+	}
+	// one rule at the edge values of its text: every address form x every length form (rules.go)
+	for rp, reps := 0, rep.Pick(1, 6); rp < reps; rp++ {
+		for ai := range addrForms {
+			for li := range lenForms {
+				add(job{phase: "rules", a: ai, b: li})
+			}
+		}
+	}
+
 	nw := runtime.GOMAXPROCS(0)
 	if nw > 16 {
 		nw = 16
@@ -321,6 +379,12 @@ func main() {
 					nt = res.linesNT
 					fp += "|" + c.Src.shape()
 				}
+				if c.Sz != nil {
+					nt, fp = res.extNT, c.Sz.shape()
+				}
+				if c.Rl != nil {
+					nt, fp = res.extNT, fp+"|"+c.Rl.shape()
+				}
 				if nt {
 					localNT++
 					rep.Nontrivial(fp)
@@ -333,7 +397,7 @@ func main() {
 					mu.Unlock()
 				}
 				report(c, res)
-				if nt && c.Src == nil && len(c.Items) <= 6 && len(res.findings) == 0 && rep.WantSample() {
+				if nt && c.Src == nil && c.Sz == nil && c.Rl == nil && len(c.Items) <= 6 && len(res.findings) == 0 && rep.WantSample() {
 					mu.Lock()
 					take := sampled[c.Phase] < 3
 					if take {
@@ -419,6 +483,8 @@ func main() {
 	rep.Count("topology_queries", nTopoQueries.Load())
 	rep.Count("topology_sets_damaged_by_a_later_construction", nTopoDamagedLater.Load())
 	linesEvidence()
+	sizesEvidence()
+	rulesEvidence()
 	tm := map[string]int64{}
 	for i := range topoMembers {
 		n := fmt.Sprint(i)
@@ -500,6 +566,8 @@ func main() {
 			nTopoSetsOnly.Load(), nTopoSharedFirstRef.Load(), nTopoSpareCap.Load())
 	}
 	linesDemands()
+	sizesDemands()
+	rulesDemands()
 	for i, l := range layers {
 		if layerLoads[i].Load() == 0 && rep.Violations() == 0 {
 			rep.Inconclusive("layer %s was never exercised", l)
